@@ -288,8 +288,8 @@ pub fn run(ctx: &mut Ctx) {
     {
         let dags = all_dags(nb);
         let perms = if thorough { rotations_and_reverse(nb) } else { permutations(nb) };
-        ctx.space(&format!("binary/D{nb}/v1-v3/record-orders"), &format!("{} labelled DAGs over ids {:?} x versions 1,2,3 x {} term-record orders + {} parent-record orders + reversed links; isolated terms additionally flagged obsolete (v2,v3)", dags.len(), &POOL_ROOTS[..nb], perms.len(), perms.len()));
-        for d in &dags {
+        ctx.space(&format!("binary/D{nb}/v1-v3/record-orders"), &format!("{} labelled DAGs over ids {:?} x versions 1,2,3 x {} term-record orders + {} parent-record orders + reversed links; isolated terms and one linked non-root term flagged obsolete (v2,v3)", dags.len(), &POOL_ROOTS[..nb], perms.len(), perms.len()));
+        for (di, d) in dags.iter().enumerate() {
             if !ctx.take() {
                 continue;
             }
@@ -305,6 +305,15 @@ pub fn run(ctx: &mut Ctx) {
                 let has_child = (0..d.n).any(|c| anc[c] >> k & 1 == 1);
                 if anc[k] == 0 && !has_child && base.terms[k].id != 1 && base.terms[k].id != 118 {
                     base.terms[k].obsolete = true;
+                }
+            }
+            // one linked non-root term (alternating between the two lowest) is flagged obsolete and replaced as
+            // well: flags must not influence the closure, whatever the record order
+            {
+                let k = 2 + di % 2;
+                if k < d.n {
+                    base.terms[k].obsolete = true;
+                    base.terms[k].replacement = Some(base.terms[(k + 1) % d.n].id);
                 }
             }
             for version in [1u8, 2, 3] {
@@ -353,8 +362,8 @@ pub fn run(ctx: &mut Ctx) {
     {
         let dags = all_dags(4);
         let perms = permutations(4);
-        ctx.space("obo/D4/stanza-orders", &format!("{} labelled DAGs over ids {:?} x 24 stanza orders (from_standard) + 4 orders (from_standard_transitive) + reversed is_a lines", dags.len(), &POOL_ROOTS[..4]));
-        for d in &dags {
+        ctx.space("obo/D4/stanza-orders", &format!("{} labelled DAGs over ids {:?} x 24 stanza orders (from_standard) + 4 orders (from_standard_transitive) + reversed is_a lines; isolated terms and one linked non-root term flagged obsolete", dags.len(), &POOL_ROOTS[..4]));
+        for (di, d) in dags.iter().enumerate() {
             if !ctx.take() {
                 continue;
             }
@@ -368,6 +377,13 @@ pub fn run(ctx: &mut Ctx) {
                 let has_child = (0..d.n).any(|c| d.parents[c] >> k & 1 == 1);
                 if d.parents[k] == 0 && !has_child && base.terms[k].id != 1 && base.terms[k].id != 118 {
                     base.terms[k].obsolete = true;
+                }
+            }
+            {
+                let k = 2 + di % 2;
+                if k < d.n {
+                    base.terms[k].obsolete = true;
+                    base.terms[k].replacement = Some(base.terms[(k + 1) % d.n].id);
                 }
             }
             let r = RefOnt::derive(&base);
